@@ -25,6 +25,7 @@ import (
 	"time"
 
 	"seehuhn.de/go/sfnt"
+	"seehuhn.de/go/sfnt/glyf"
 	"seehuhn.de/go/sfnt/opentype/gtab"
 	"seehuhn.de/go/sfnt/opentype/gtab/builder"
 
@@ -742,7 +743,12 @@ func runRT(c *Case, out *vio.Out) (hung bool) {
 		reps = 25
 	}
 	var e ev
+	// the same font OBJECT with other glyph names in the second and later repetitions (a font may be edited between
+	// two calls; Explain and Parse are handed the font as it is at the time of the call)
+	restore := renameGlyphs(f.F, 0)
+	defer restore()
 	for r := 0; r < reps; r++ {
+		renameGlyphs(f.F, r)
 		text, xpanic, xhung := explain(f, s.Tab, ll)
 		e = ev{"ev": "rt", "case": c.ID, "shape": s, "text": text, "xpanic": trim(xpanic, 300), "note": note,
 			"before": before, "after": []any{}, "perr": "", "ppanic": "", "returned": !xhung, "leaks": 0, "rep": r,
@@ -962,4 +968,25 @@ func main() {
 	default:
 		vio.Fatal("unknown mode " + os.Args[1])
 	}
+}
+
+// renameGlyphs gives the named glyphs of a TrueType font the names of their r-th neighbours (r = 0: the names
+// the font was built with, remembered at the first call); it returns a function that restores those.
+var builtNames = map[*sfnt.Font][]string{}
+
+func renameGlyphs(f *sfnt.Font, r int) func() {
+	o, ok := f.Outlines.(*glyf.Outlines)
+	if !ok || len(o.Names) < 3 {
+		return func() {}
+	}
+	orig, seen := builtNames[f]
+	if !seen {
+		orig = append([]string(nil), o.Names...)
+		builtNames[f] = orig
+	}
+	n := len(orig) - 1
+	for i := 1; i <= n; i++ {
+		o.Names[i] = orig[1+(i-1+7*r)%n]
+	}
+	return func() { copy(o.Names, orig) }
 }
